@@ -530,7 +530,19 @@ def m_return_swap(T, r):
     return T.splice(a, a, lits[r.randrange(len(lits))])
 
 
+def m_var_to_literal(T, r):
+    """A variable use -> a literal (a concrete value where a variable's, possibly generic, type is expected)."""
+    uses = [i for i in T.var_uses() if T.tok(i, -1) not in ("let", "fun", "in", "for") and T.tok(i, 1) not in ("(", ":", "=", "+=", "-=")
+            and not T.in_signature(i)]
+    if not uses:
+        return None
+    i = uses[r.randrange(len(uses))]
+    lits = ["0", '"lit"', "True", "[2]"]
+    return T.splice(i, i, lits[r.randrange(len(lits))])
+
+
 MUTATIONS = [
+    ("var-to-literal", m_var_to_literal),
     ("return-swap", m_return_swap),
     ("literal-swap", m_literal_swap),
     ("drop-arg", m_drop_arg),
@@ -547,7 +559,7 @@ MUTATIONS = [
 ]
 
 
-WEIGHTS = {"literal-swap": 3, "rename-other-var": 3, "return-swap": 2}      # the other kinds weigh 1
+WEIGHTS = {"literal-swap": 3, "rename-other-var": 3, "return-swap": 2, "var-to-literal": 2}      # the other kinds weigh 1
 
 
 def mutants(rng, src, k=MUTANTS_PER_BASE):
@@ -910,6 +922,9 @@ def construct_class(src, outcome, cls, mutation):
     text = fault_text(src, pos).strip()
     off = _char_offset(src, pos)
     fallback = "mutant:" + mutation if mutation else "generated"
+    if re.search(r"Expected `Fun<\((?:[^`]*\bAny\b[^`]*)\), [^`]*>` but", outcome.get("message") or ""):
+        # a type parameter inside a Fun<..> hint is erased to Any at run time; parameters are contravariant
+        return "generic-fun-typed-parameter"
     if cls == "unbound-variable":
         m = re.search(r"`([^`]+)`", outcome.get("message") or "")
         name = m.group(1) if m else text
@@ -958,6 +973,37 @@ def relocate_funs(rng, src):
     return "\n".join(l for it in rest for l in it) + "\n"
 
 
+def generic_snippet(rng, k):
+    """Fully annotated GENERIC functions with calls whose results land in annotated positions. Variables follow the
+    generator's naming (letter + number), so the mutations act on the generic bodies too."""
+    kinds = rng.sample(["id", "or", "first", "wrap", "pair", "apply"], rng.randrange(1, 4))
+    out = []
+    for kind in kinds:
+        k += 1
+        n = "g%s%d" % (kind, k)
+        if kind == "id":
+            out += ["fun %s<T>(a1: T): T { a1 }" % n, "let %sa: Int = %s(3)" % (n, n), 'let %sb: String = %s("a")' % (n, n),
+                    "println(string_repr((%sa + 1, %sb ^ \"!\")))" % (n, n)]
+        elif kind == "or":
+            out += ["fun %s<T>(a1: Option<T>, a2: T): T {\n  match a1 {\n    Some(x3) => x3\n    None => a2\n  }\n}" % n,
+                    "let %sa: Int = %s(Some(1), 2)" % (n, n), 'let %sb: String = %s(None, "z")' % (n, n),
+                    "println(string_repr((%sa * 2, %sb ^ \"?\")))" % (n, n)]
+        elif kind == "first":
+            out += ["fun %s<T>(a1: List<T>, a2: T): T {\n  match a1.first() {\n    Some(x3) => x3\n    None => a2\n  }\n}" % n,
+                    "let %sa: Int = %s([4, 5], 0)" % (n, n), 'let %sb: String = %s([], "none")' % (n, n),
+                    "println(string_repr((%sa - 1, %sb ^ \".\")))" % (n, n)]
+        elif kind == "wrap":
+            out += ["fun %s<T>(a1: T): List<T> { [a1] }" % n, 'let %sl: List<String> = %s("a")' % (n, n),
+                    "for x9 in %sl { println(x9 ^ \"w\") }" % n]
+        elif kind == "pair":
+            out += ["fun %s<A, B>(a1: A, a2: B): (B, A) { (a2, a1) }" % n, 'let (%sp, %sq) = %s(1, "s")' % (n, n, n),
+                    "println(string_repr((%sp ^ \"x\", %sq + 1)))" % (n, n)]
+        else:
+            out += ["fun %s<T>(a1: Fun<(T), T>, a2: T): T { a1(a1(a2)) }" % n, "fun %sinc(i: Int): Int { i + 1 }" % n,
+                    "let %sr: Int = %s(%sinc, 1)" % (n, n, n), "println(string_repr(%sr))" % n]
+    return "\n".join(out) + "\n"
+
+
 def has_call(src):
     """At least one call of a generated function (`fnK(` outside its own `fun fnK(` header)."""
     return bool(re.search(r"(?<!fun )\bfn\d+\(", src))
@@ -976,6 +1022,8 @@ def search(ctx, n_programs):
         base += genprog.programs(rng, n, size=size, annotate=True, features=set(FEATURES))
     # 60% of the programs: function definitions scattered among the statements instead of all first
     base = [relocate_funs(rng, b) if rng.random() < 0.6 else b for b in base]
+    # 35% of the programs also get generic functions (type parameters in parameter, result, List/Option/Fun positions)
+    base = [generic_snippet(rng, 100 * i) + b if rng.random() < 0.35 else b for i, b in enumerate(base)]
     progs = []          # (src, mutation kind or None, base index)
     seen = set()
     for bi, src in enumerate(base):
